@@ -314,5 +314,27 @@ pub fn run(tape: &[u8], ctx: &mut Ctx) {
 			}
 		}
 	}
+	// rarely: one large length-delimited value (0.5-1.5 MiB) under the default reader configuration -
+	// a valid datum must not depend on how much of it the reader happens to have buffered
+	if t.byte() >= 252 {
+		let len = 500_000 + t.below(1_000_000);
+		let as_string = t.bool();
+		let payload: Vec<u8> = if as_string { std::iter::repeat(b'a' + t.below(26) as u8).take(len).collect() } else { crate::tape::XorShift::new(t.u32() as u64).fill(len) };
+		let mut datum = Vec::with_capacity(len + 8);
+		write_long(len as i64, &mut datum);
+		datum.extend_from_slice(&payload);
+		let schema: serde_avro_fast::Schema = if as_string { "\"string\"" } else { "\"bytes\"" }.parse().expect("primitive schema");
+		ctx.label("big-value:0.5-1.5MiB");
+		let a = serde_avro_fast::from_datum_slice::<serde_bytes::ByteBuf>(&datum, &schema).map(|b| crate::tape::fnv64(&b)).map_err(|_| ());
+		for cap in [1usize << t.below(4), 4096, 8192, 65536] {
+			let br = std::io::BufReader::with_capacity(cap, std::io::Cursor::new(&datum[..]));
+			let b = serde_avro_fast::from_datum_reader::<_, serde_bytes::ByteBuf>(br, &schema).map(|b| crate::tape::fnv64(&b)).map_err(|_| ());
+			evals += 1;
+			if a != b || a != Ok(crate::tape::fnv64(&payload)) {
+				ctx.violation("C11/big-value-differs", format!("schema {} with one value of {len} bytes: slice {:?} vs BufReader(capacity {cap}) {:?} (expected hash {:x})", if as_string { "string" } else { "bytes" }, a, b, crate::tape::fnv64(&payload)));
+				break;
+			}
+		}
+	}
 	ctx.sub_evaluations = evals;
 }
